@@ -101,6 +101,8 @@ def add_stage(spec, st, alt_spelling=False):
         stop = None if b == -1 else b
         if st['f'] == 'limit':
             return spec.limit(b)
+        if st['f'] == 'slice1':              # single-argument spelling slice(n)
+            return spec.slice(b)
         if c == 1:
             return spec.slice(a, stop)
         return spec.slice(a, stop, c)
